@@ -12,7 +12,8 @@ RULE = ("shapes of every kind (triangles, non-convex polygons, holes, several co
         "distinct = SHA-1 of the case")
 PROOF_STATUS = ("Props/C04.v: moment = moment_spec (formal trapezoid integrals) for all polygonal shapes of all kinds, "
                 "a+b <= 14; Newton-Cotes exactness up to 19 nodes; area = shoelace; reversal negates; curved segments of degree d: "
-                "the rule is exact whenever (d-1)(a+1+b) <= 3 (area for d <= 5, order <= 2 for quadratics), witnesses of inexactness beyond")
+                "the rule (max(4+a+b+d, d(a+b+2)) nodes since the repair of F29) is exact for every exponent pair within the 19-node table; "
+                "the old node count refuted on a cubic first moment")
 
 
 def cases(ctx):
@@ -91,12 +92,12 @@ def check(ctx, case):
         if ri[0] != "ok" or not U.num_same(ri[1], spec, exact):
             fails.append(Fail(kind="O", what="polynomial(S,a,b) is not the integral of x^a y^b", impl=ri, expected=spec))
     else:
-        # curved: area exact (up to rounding); higher moments to quadrature accuracy -- and exact too wherever theorem
-        # C04_curved_moments applies: (degree - 1) * (a + 1 + b) <= 3 on every segment (order <= 2 on quadratics)
+        # curved: since the repair of F29 the rule has enough nodes for every exponent pair; theorem C04_curved_moments
+        # applies whenever the node count max(4+a+b+d, d(a+b+2)) stays within the 19-node table of the proof
         dmax = max(len(sg) - 1 for j in O.shape_jordans(sex) for sg in j)
-        covered = (dmax - 1) * (a + 1 + b) <= 3
-        ctx.count("curved: theorem C04_curved_moments " + ("applies (exact value required)" if covered else "does not apply (quadrature accuracy)"))
-        tol = 0 if covered else F(1, 100)
+        covered = max(4 + a + b + dmax, dmax * (a + b + 2)) <= 19
+        ctx.count("curved: theorem C04_curved_moments " + ("applies (node count <= 19)" if covered else "does not apply (node count > 19: exact value still required)"))
+        tol = 0
         # correspondence: the model integrates curved segments of every degree with the same rule
         pm = ctx.model.moment(sex, a, b)
         ctx.k_cases += 1
